@@ -24,8 +24,17 @@ Theorem C06_membership_per_member_kind : forall e eids i,
   (forall m, m_has e eids (MMaybe m) i = true) /\
   (forall sid a b c d o, m_has e eids (MRestrict sid a b c d o) i = NS.mem i (env_mask e sid)) /\
   (forall k a d, m_has e eids (MChange k a d) i = NM.mem i (cs_get e k)) /\
-  (forall sid, m_has e eids (MDrain sid) i = NS.mem i (env_mask e sid)).
+  (forall sid, m_has e eids (MDrain sid) i = NS.mem i (env_mask e sid)) /\
+  (forall bop a b, m_has e eids (MBitOp bop a b) i = bitop_has bop a b i).
 Proof. intros e eids i. repeat split. Qed.
+
+(* combinations of bit sets: intersection, union, symmetric difference, complement *)
+Theorem C06_bit_set_combinations : forall a b i,
+  bitop_has 0 a b i = existsb (N.eqb i) a && existsb (N.eqb i) b /\
+  bitop_has 1 a b i = existsb (N.eqb i) a || existsb (N.eqb i) b /\
+  bitop_has 2 a b i = xorb (existsb (N.eqb i) a) (existsb (N.eqb i) b) /\
+  bitop_has 3 a b i = negb (existsb (N.eqb i) a).
+Proof. intros a b i. repeat split. Qed.
 
 (* the whole join: the items' indices are the intersection in ascending order, one item per member *)
 Theorem C06_join_visits_intersection : forall e av eids hs ms l e',
@@ -169,6 +178,7 @@ Proof. vm_compute. split; reflexivity. Qed.
 Print Assumptions C06_ascending_once.
 Print Assumptions C06_exactly_the_intersection.
 Print Assumptions C06_membership_per_member_kind.
+Print Assumptions C06_bit_set_combinations.
 Print Assumptions C06_join_visits_intersection.
 Print Assumptions C06_early_stop_is_a_prefix.
 Print Assumptions C06_optional_reported_correctly.
